@@ -62,6 +62,9 @@ func comparableElem[V comparable](mk func(i int) V) elem[V] {
 // shapeInfo is the classification of one run.
 type shapeInfo struct {
 	Congr, Window bool
+	WrapReadN     bool            // a ReadN moved elements from both sides of the wrap point of the backing array
+	RoomyWrapped  bool            // a ReadN destination had room for everything (len(dst) >= Len > 0) while the live window was wrapped
+	RoomyFlat     bool            // ... while the live window was not wrapped
 	Stored        map[string]bool // kinds of the values that were accepted by Write
 	Refused       map[string]bool // kinds of the values that met a full buffer
 	Returned      map[string]bool // kinds of the values that came back through Read / ReadN / At
@@ -85,6 +88,14 @@ func runShapeE[V any](cp int, ops []Op, el elem[V], si *shapeInfo) *vstat.Violat
 		rb := container.NewRingBuffer[V](uint(cp))
 		var model []V
 		next := 0
+		rpos, wpos, n1 := 0, 0, cp+1 // classification only: where the indices of an array of cap+1 slots would be
+		advance := func(pos *int, k int) { // *pos = (*pos + k) mod n1 without overflow (k <= cap)
+			if *pos >= n1-k {
+				*pos -= n1 - k
+			} else {
+				*pos += k
+			}
+		}
 		var zero V
 		maxDst := 64
 		if unsafe.Sizeof(zero) == 0 {
@@ -120,6 +131,7 @@ func runShapeE[V any](cp int, ops []Op, el elem[V], si *shapeInfo) *vstat.Violat
 						return vstat.V("ring:write-rejected", "%s: Write(%s) failed with %v while Len=%d<Cap", where, show(v), err, len(model))
 					}
 					model = append(model, v)
+					advance(&wpos, 1)
 				}
 			case "r":
 				got, err := rb.Read()
@@ -133,6 +145,7 @@ func runShapeE[V any](cp int, ops []Op, el elem[V], si *shapeInfo) *vstat.Violat
 					}
 					si.note(&si.Returned, el.kind(got))
 					model = model[1:]
+					advance(&rpos, 1)
 				}
 			case "n":
 				ln := min(max(op.N, 0), maxDst)
@@ -143,6 +156,16 @@ func runShapeE[V any](cp int, ops []Op, el elem[V], si *shapeInfo) *vstat.Violat
 				want := min(ln, len(model))
 				if back > 0 && len(model) > ln {
 					*window = true
+				}
+				if want > 0 && rpos > wpos && want > n1-rpos {
+					si.WrapReadN = true
+				}
+				if len(model) > 0 && ln >= len(model) {
+					if rpos > wpos {
+						si.RoomyWrapped = true
+					} else {
+						si.RoomyFlat = true
+					}
 				}
 				got := rb.ReadN(dst)
 				if got > len(dst) {
@@ -177,6 +200,7 @@ func runShapeE[V any](cp int, ops []Op, el elem[V], si *shapeInfo) *vstat.Violat
 					}
 				}
 				model = model[want:]
+				advance(&rpos, want)
 			case "s":
 				want := 0
 				if op.N > 0 {
@@ -186,6 +210,7 @@ func runShapeE[V any](cp int, ops []Op, el elem[V], si *shapeInfo) *vstat.Violat
 					return vstat.V("ring:skip-count", "%s: Skip returned %d want %d", where, got, want)
 				}
 				model = model[want:]
+				advance(&rpos, want)
 			case "a":
 				inRange := op.N >= 0 && op.N < len(model)
 				var got V
@@ -206,6 +231,7 @@ func runShapeE[V any](cp int, ops []Op, el elem[V], si *shapeInfo) *vstat.Violat
 				}
 			case "c":
 				rb.Clear()
+				advance(&rpos, len(model))
 				model = model[:0]
 			}
 			if rb.Len() != len(model) {
@@ -266,8 +292,13 @@ func runShapeCaseFull(c shapeCase) (v *vstat.Violation, si shapeInfo) {
 		v = runShapeE(c.Cap, c.Ops, anyElem, &si)
 	case "error":
 		v = runShapeE(c.Cap, c.Ops, errorElem, &si)
-	default: // zero-size elements: the only shape for which capacities near MaxInt can be allocated
-		v = runShapeE(c.Cap, c.Ops, comparableElem(func(i int) struct{} { return struct{}{} }), &si)
+	default:
+		if r, ok := basicRunners[c.Shape]; ok { // predeclared basic types and named types over them
+			v = r.run(c.Cap, c.Ops, &si)
+			break
+		}
+		// zero-size elements: the only shape for which capacities near MaxInt can be allocated
+		v = runShapeE(c.Cap, c.Ops, zeroSizeElem, &si)
 	}
 	return v, si
 }
@@ -292,6 +323,15 @@ func TestC14Shapes(t *testing.T) {
 		if window {
 			classes = append(classes, "element_shape:"+c.Shape+":readn_into_window_with_spare_capacity_shorter_than_Len")
 		}
+		if si.WrapReadN {
+			classes = append(classes, "element_shape:"+c.Shape+":readn_spans_wrap_point")
+		}
+		if si.RoomyWrapped {
+			classes = append(classes, "element_shape:"+c.Shape+":readn_with_room_for_everything_on_wrapped_window")
+		}
+		if si.RoomyFlat {
+			classes = append(classes, "element_shape:"+c.Shape+":readn_with_room_for_everything_on_unwrapped_window")
+		}
 		if congr {
 			classes = append(classes, "element_shape:"+c.Shape+":argument_congruent_to_small_value_mod_2^16_2^31_2^32")
 			if c.Cap > 1<<32 {
@@ -303,7 +343,7 @@ func TestC14Shapes(t *testing.T) {
 	// systematic: fill to capacity, write once more (with every hostile text in turn), drain
 	// (the uncomparable and interface element types too: every kind of value - nil interface, typed nil, zero value,
 	// uncomparable dynamic value - meets the full buffer of every capacity 0..3 and travels through it)
-	allShapes := append(append([]string{"string", "barestring", "struct"}, uncomparableShapes...), interfaceShapes...)
+	allShapes := append(append(append([]string{"string", "barestring", "struct"}, uncomparableShapes...), interfaceShapes...), basicShapes...)
 	for _, shape := range allShapes {
 		for cp := 0; cp <= 3; cp++ {
 			for start := 0; start < len(hostile); start++ {
@@ -337,7 +377,7 @@ func TestC14Shapes(t *testing.T) {
 		run(t, shapeCase{Shape: "zerosize", Cap: cp, Ops: ops})
 	}
 	rapid.Check(t, func(rt *rapid.T) {
-		c := shapeCase{Shape: rapid.SampledFrom(append(append([]string{"string", "barestring", "struct", "zerosize"}, uncomparableShapes...), interfaceShapes...)).Draw(rt, "shape")}
+		c := shapeCase{Shape: rapid.SampledFrom(append(allShapes, "zerosize")).Draw(rt, "shape")}
 		c.Cap = rapid.IntRange(0, 6).Draw(rt, "cap")
 		if c.Shape == "zerosize" && rapid.Bool().Draw(rt, "huge") {
 			c.Cap = rapid.SampledFrom([]int{math.MaxInt - 1, math.MaxInt - 3, math.MaxInt - 200, 1 << 62, 1 << 33}).Draw(rt, "hugeCap")
